@@ -1342,6 +1342,12 @@ class TangentVector(PointPair):
         # isometry does not depend on the sign of the coordinates
         normed = normed * np.where(normed[..., :1, :1] < 0, -1, 1)
 
+        # in dimension 1 the frame (point, vector) is a full basis, so
+        # it determines the isometry: forcing the orientation there
+        # would reverse the vector
+        if normed.shape[-2] == normed.shape[-1]:
+            force_oriented = False
+
         isom = utils.find_isometry(self.minkowski, normed,
                                    force_oriented)
 
